@@ -40,6 +40,22 @@ def _def_excluded(g, dnode, store, vname):
 def r11_1(run):
     tc = TC(run)
     k = 0
+    # save(): a list-typed option that was assigned a scalar (a str for a *Port option, whose parser is String) becomes a
+    # one-element list before it is stored, so that it is wrapped like every other list value
+    sv = CU(run, 'save')
+    gsv = cfg_of(sv)
+    listify = [n for n in gsv.real_nodes() if n.kind == 'stmt' and isinstance(n.ast, ast.Assign) and isinstance(n.ast.value, ast.List) and len(n.ast.value.elts) == 1
+               and assigned_targets(n.ast) == [dotted(n.ast.value.elts[0])]]
+    okl = False
+    for n in listify:
+        gd = gsv.guarded_by(n, lambda t: isinstance(t, ast.Compare) and dotted(t.comparators[0]) == 'self.list_parsers' and isinstance(t.ops[0], ast.In))
+        wraps_after = [m for m in gsv.reachable([s_ for _, s_ in n.succ], follow_exc=False) if m.kind == 'stmt' and isinstance(m.ast, ast.Assign)
+                       and isinstance(m.ast.value, ast.Call) and dotted(m.ast.value.func) == '_ListWrapper']
+        if any(lab == 'T' for _, lab in gd) and wraps_after:
+            okl = True
+    run.ob('R11.1', sv, sv.node, 'save(): a list-typed option given as a scalar is stored as a (tracked) one-element list', okl, slot='save-listify',
+           message='save() stores whatever the parser returns: for a list option whose parser yields a str (*Port options use String) the option turns '
+                   'into a plain str and stops being a tracked list')
     for u in class_units(run.idx, tc):
         g = None
         defs = local_defs(u)
@@ -167,6 +183,14 @@ def r11_3(run):
             if list_leg:
                 run.ob('R11.3', u, c, 'list parsers may see the sentinel (result compared with [DEFAULT_VALUE])', True)
                 continue
+            # the parser is known to be String() on this leg (assigned just above): parse is the identity, nothing can raise
+            key_src = src(receiver(c).slice)
+            strp = [n for n in g.real_nodes() if n.kind == 'stmt' and isinstance(n.ast, ast.Assign) and isinstance(n.ast.targets[0], ast.Subscript)
+                    and dotted(n.ast.targets[0].value) == 'self.parsers' and src(n.ast.targets[0].slice) == key_src
+                    and isinstance(n.ast.value, ast.Call) and dotted(n.ast.value.func) == 'String']
+            if strp and all(any(g.dominates(sn, cn) for sn in strp) for cn in cnodes):
+                run.ob('R11.3', u, c, 'the parser on this leg is String() (identity)', True)
+                continue
             # explicit fallback to the sentinel: x.get(k, DEFAULT_VALUE)
             if isinstance(arg, ast.Call) and callee_attr(arg) == 'get' and len(arg.args) == 2 and dotted(arg.args[1]) == 'DEFAULT_VALUE':
                 may_default = True
@@ -278,6 +302,40 @@ def r11_5(run):
         run.ob('R11.5', u, u.node, '%s: an unset scalar option takes the (parsed) default Tor reported' % name, found, slot='default-lookup:%s' % name,
                message='%s no longer looks the option default up when Tor reports the option unset: the value degrades to the '
                        'raw marker / raw default string and changes type' % name)
+    # "set to the empty string / no values" is not "unset": a default is substituted only for the unset marker, so no test for
+    # emptiness (== '', truthiness, len) may lead to a default lookup
+    for name in ('_do_setup', '_conf_changed'):
+        u = CU(run, name)
+        g = cfg_of(u)
+        lookups = [n for n in g.real_nodes() if n.kind == 'stmt' and isinstance(n.ast, ast.Assign) and any(
+            (isinstance(c, ast.Call) and callee_attr(c) == 'get' and 'defaults' in (dotted(receiver(c)) or src(receiver(c)))) or
+            (isinstance(c, ast.Subscript) and 'defaults' in (dotted(c.value) or '')) for c in ast.walk(n.ast.value))]
+        for t in g.live:
+            if t.kind != 'test':
+                continue
+            a = t.ast
+            empt = None
+            if isinstance(a, ast.Compare) and len(a.ops) == 1 and isinstance(a.ops[0], (ast.Eq, ast.NotEq)) and const(a.comparators[0]) in ('', [], b''):
+                empt = 'T' if isinstance(a.ops[0], ast.Eq) else 'F'
+            elif isinstance(a, ast.Name) and a.id in ('v', 'value', 'parsed'):
+                empt = 'F'
+            if empt is None:
+                continue
+            def is_unset_test(n):
+                return n.kind == 'test' and any(dotted(x) == 'DEFAULT_VALUE' for x in ast.walk(n.ast))
+            # the lookup is reached from the "empty" leg without any test for the unset marker in between, and is not
+            # simply code that follows the whole if-statement (reachable the same way from the other leg)
+            leg = g.reachable([s_ for lab, s_ in t.succ if lab == empt], avoid=is_unset_test, follow_exc=False)
+            other = g.reachable([s_ for lab, s_ in t.succ if lab not in (empt, 'exc')], avoid=is_unset_test, follow_exc=False)
+            hit = [n for n in lookups if n in leg and n not in other]
+            # list options only: for scalar options the code (and the unedited test_default_port) deliberately reads '' as unset
+            def on_list_leg(n):
+                return any(lab == 'T' for t_, lab in g.guarded_by(n, lambda x: isinstance(x, ast.Call) and (dotted(x.func) or '').endswith('is_list_config_type'))) or \
+                    any((lab == 'T') == isinstance(t_.ast.ops[0], ast.In) for t_, lab in g.guarded_by(n, lambda x: isinstance(x, ast.Compare) and dotted(x.comparators[0]) == 'self.list_parsers'))
+            hit = [n for n in hit if on_list_leg(n)]
+            run.ob('R11.5', u, a, 'an empty value of a list option is not treated as unset', not hit, slot='empty-not-unset:%s' % name,
+                   message='%s: when %s says the value is empty, the option default is substituted: an option Tor reports as explicitly empty shows its '
+                           'defaults, and a later edit + save sends those defaults to Tor' % (name, src(a)[:40]))
     # port lists: when config/defaults has no entry for an unset / auto port option, its __FooPort default is asked for.
     # The fallback must be chosen per key (KeyError on defaults[key] / a membership test), not by whether the map is empty.
     ds = CU(run, '_do_setup')
@@ -416,6 +474,101 @@ def r11_9(run):
     run.floor('R11.9', 'list-leg paths', k, 6)
 
 
+def r11_10(run):
+    """change events are parsed with parse_keywords(multiline_values=False): an option listed several times in one event keeps all its
+    values (rule R13.3 on parse_keywords, shared)"""
+    from . import c13
+    # (without the trailing-OK clause: for event payloads the trailing OK really is the terminator)
+    borrow(run, lambda r: c13.r13_3(r, ok_rule=False), 'R11.10')
+
+
+def _list_typed(v, g, n, listvars):
+    """is the expression certainly a list?"""
+    if isinstance(v, (ast.List, ast.ListComp)):
+        return True
+    if isinstance(v, ast.Call) and dotted(v.func) in ('list', 'sorted', '_ListWrapper'):
+        return True
+    if isinstance(v, ast.Name) and v.id in listvars:
+        return True
+    if isinstance(v, ast.BinOp) and isinstance(v.op, ast.Add) and (_list_typed(v.left, g, n, listvars) or _list_typed(v.right, g, n, listvars)):
+        return True
+    if isinstance(v, ast.Call) and callee_attr(v) == 'parse':
+        # the result of a *list* type parser (R11.4: list parsers return lists) - known from a dominating list-type test
+        gd = g.guarded_by(n, lambda x: isinstance(x, ast.Call) and (dotted(x.func) or '').endswith('is_list_config_type'))
+        return any(lab == 'T' for _, lab in gd)
+    return False
+
+
+def must_be_list(g, site, name):
+    """forward must-analysis over the CFG: at `site`, is `name` a list on every path?  Facts: assigned a list-typed expression;
+    the true leg of isinstance(name, list); a value that survived `if not isinstance(name, list): name = [name]`."""
+    order = list(g.live)
+    state = dict((n.id, None) for n in order)       # None = unvisited (top), True = list, False = maybe not
+    edge_in = {}
+    work = [g.entry]
+    state[g.entry.id] = False
+
+    def out_state(n, lab):
+        cur = state[n.id]
+        if n.kind == 'stmt' and isinstance(n.ast, (ast.Assign, ast.AugAssign)) and name in assigned_targets(n.ast) and lab != 'exc':
+            if isinstance(n.ast, ast.Assign) and isinstance(n.ast.targets[0], ast.Name):
+                return _list_typed(n.ast.value, g, n, set([name]) if cur else set())
+            return False
+        if n.kind in ('iter',) and isinstance(n.ast, ast.For) and name in [x.id for x in ast.walk(n.ast.target) if isinstance(x, ast.Name)]:
+            return False
+        if n.kind == 'test' and isinstance(n.ast, ast.Call) and dotted(n.ast.func) == 'isinstance' and len(n.ast.args) == 2 and dotted(n.ast.args[0]) == name \
+                and dotted(n.ast.args[1]) == 'list':
+            if lab == 'T':
+                return True
+        return cur
+    while work:
+        n = work.pop()
+        for lab, s_ in n.succ:
+            v = out_state(n, lab)
+            old = state[s_.id]
+            new = v if old is None else (old and v)
+            if new != old:
+                state[s_.id] = new
+                work.append(s_)
+    return bool(state.get(site.id))
+
+
+def r11_11(run):
+    """what is handed to _ListWrapper(...) as the list is a list on every path (a str would be split into characters, a list of
+    lists would nest): decided by a forward must-be-list analysis of the variable"""
+    tc = TC(run)
+    k = 0
+    for u in class_units(run.idx, tc, include_subclasses=False):
+        sites = [c for c in calls_in(u) if dotted(c.func) == '_ListWrapper' and c.args]
+        if not sites:
+            continue
+        g = cfg_of(u)
+        for c in sites:
+            a = c.args[0]
+            for n in g.nodes_containing(c):
+                k += 1
+                if isinstance(a, ast.Name):
+                    ok = must_be_list(g, n, a.id)
+                else:
+                    ok = _list_typed(a, g, n, set())
+                run.ob('R11.11', u, c, 'the value wrapped as a tracked list is a list on every path', ok, slot='wrapped-is-list@%s:%s' % (u.short, src(a)[:20]),
+                       message='%s passes %s to _ListWrapper although it can be a str (split into characters) or anything else that is not the flat list of values' % (u.short, src(a)[:30]))
+                # ... and a flat one: no list literal around something that may itself be a list
+                if isinstance(a, ast.Name):
+                    for dn in reaching_defs(g, n, a.id):
+                        v = def_value(dn, a.id)
+                        if isinstance(v, ast.List) and len(v.elts) == 1 and isinstance(v.elts[0], ast.Call) and callee_attr(v.elts[0]) == 'parse' and v.elts[0].args \
+                                and isinstance(v.elts[0].args[0], ast.Name):
+                            inner = v.elts[0].args[0].id
+                            gd = g.guarded_by(dn, lambda x: isinstance(x, ast.Call) and dotted(x.func) == 'isinstance' and len(x.args) == 2 and dotted(x.args[0]) == inner
+                                              and dotted(x.args[1]) == 'list')
+                            flat = any(lab == 'F' for _, lab in gd)
+                            run.ob('R11.11', u, dn.ast, 'a value that may itself be a list of values is not wrapped in another list', flat, slot='nested-list@%s' % u.short,
+                                   message='%s builds [parse(%s)] without knowing that %s is a single value: when Tor reports several lines GETCONF returns a list and the '
+                                           'result is nested' % (u.short, inner, inner))
+    run.floor('R11.11', '_ListWrapper construction sites in TorConfig', k, 6)
+
+
 def r11_6(run):
     us = [CU(run, '_do_setup'), CU(run, '_get_defaults'), run.idx.find_method(TC(run), 'from_protocol')]
     k = dropped_deferreds(run, 'R11.6', [u for u in us if u is not None], 'the configuration bootstrap')
@@ -426,6 +579,8 @@ RULES = [
     ('R11.7', 'every assigned list value gets its own tracked wrapper (no aliasing between options)', r11_7),
     ('R11.8', 'every tracked list\'s modification callback binds its own option name eagerly (partial / lambda default), equal to the key it is stored under', r11_8),
     ('R11.9', 'list leg of _conf_changed by path enumeration over (unset marker, parser known, already a list): default / parse once / listify / wrap last', r11_9),
+    ('R11.10', 'parse_keywords keeps every value of a repeated key in both line modes (R13.3 borrowed; CONF_CHANGED uses the one-line mode)', r11_10),
+    ('R11.11', 'forward must-be-list analysis: every _ListWrapper(x, ...) in TorConfig gets a flat list on every path', r11_11),
     ('R11.6', 'no dropped Deferred in the configuration bootstrap (every GETCONF is awaited before the view is declared ready)', r11_6),
     ('R11.5', 'sibling agreement: default lookup + parse on the unset leg in _do_setup and _conf_changed; key-form agreement of list_parsers writers/reader', r11_5),
     ('R11.1', 'store-site typing: every value stored under a Tor option key that may be list-typed is a _ListWrapper (or excluded by a dominating test / copied from the wrapped pending set)', r11_1),
@@ -437,18 +592,22 @@ RULES = [
 from ..selftest import M  # noqa: E402
 F = 'txtorcon/torconfig.py'
 MUTANTS = [
+    M('single-default-line-as-str', F, "                    parsed = defaults.get(rn, [])\n                    if not isinstance(parsed, list):\n                        parsed = [parsed]  # just one default line\n", "                    parsed = defaults.get(rn, [])\n", ['R11.11']),
+    M('port-values-nested', F, "                elif isinstance(v, list):\n                    initial = [self.parsers[rn].parse(x) for x in v]\n                else:", "                else:", ['R11.11']),
+    M('saved-string-stays-string', F, "                if real_name in self.list_parsers and not isinstance(value, list):\n                    value = [value]\n", "", ['R11.1']),
+    M('empty-list-gets-defaults', F, "                parsed = self.parsers[rn].parse(v)\n                if parsed == [DEFAULT_VALUE]:\n                    parsed = defaults.get(rn, [])", "                if v == '' or v == DEFAULT_VALUE:\n                    parsed = defaults.get(rn, [])\n                else:\n                    parsed = self.parsers[rn].parse(v)", ['R11.5']),
     M('list-leg-unset-negated', F, "                if v == DEFAULT_VALUE:\n                    v = self._defaults.get(real_name, [])\n                elif real_name in self.parsers:", "                if v != DEFAULT_VALUE:\n                    v = self._defaults.get(real_name, [])\n                elif real_name in self.parsers:", ['R11.9']),
     M('list-leg-no-default', F, "                if v == DEFAULT_VALUE:\n                    v = self._defaults.get(real_name, [])\n                elif real_name in self.parsers:", "                if v == DEFAULT_VALUE:\n                    pass\n                elif real_name in self.parsers:", ['R11.9']),
     M('list-leg-not-parsed', F, "                elif real_name in self.parsers:\n                    v = self.parsers[real_name].parse(v)\n                if not isinstance(v, list):", "                elif real_name in self.parsers:\n                    pass\n                if not isinstance(v, list):", ['R11.9']),
     M('list-leg-no-listify', F, "                if not isinstance(v, list):\n                    v = [v]\n                v = _ListWrapper(", "                v = _ListWrapper(", ['R11.9']),
-    M('port-default-by-map-truthiness', F, "                    try:\n                        initial = defaults[name[:-5]]\n                    except KeyError:\n", "                    if defaults:\n                        initial = defaults.get(name[:-5], [])\n                    else:\n", ['R11.5']),
+    M('port-default-by-map-truthiness', F, "                    try:\n                        initial = defaults[name[:-5]]\n                        if not isinstance(initial, list):\n                            initial = [initial]  # just one default line\n                    except KeyError:\n", "                    if defaults:\n                        initial = list(defaults.get(name[:-5], []))\n                    else:\n", ['R11.5']),
     M('default-list-parsed', F, "                    v = self._defaults.get(real_name, [])\n                elif real_name in self.parsers:", "                    v = self._defaults.get(real_name, [])\n                if real_name in self.parsers:", ['R11.3']),
     M('conf-changed-late-bound-callback', F, "                v = _ListWrapper(\n                    v, functools.partial(self.mark_unsaved, real_name))\n            else:\n                if v == DEFAULT_VALUE:", "                v = _ListWrapper(v, lambda: self.mark_unsaved(real_name))\n            else:\n                if v == DEFAULT_VALUE:", ['R11.8']),
     M('post-bootstrap-not-awaited', F, "        cfg = TorConfig(control=proto)\n        yield cfg.post_bootstrap", "        cfg = TorConfig(control=proto)\n        cfg.post_bootstrap", ['R11.6']),
     M('conf-changed-unwrapped', F, "                v = _ListWrapper(\n                    v, functools.partial(self.mark_unsaved, real_name))\n            else:\n                if v == DEFAULT_VALUE:", "                pass\n            else:\n                if v == DEFAULT_VALUE:", ['R11.1']),
     M('conf-changed-plain-parse', F, "            if real_name in self.list_parsers:\n                # same shape", "            if False and real_name in self.list_parsers:\n                # same shape", ['R11.1']),
-    M('save-unwrapped', F, "                value = self.parsers[real_name].parse(value)\n                if isinstance(value, list):\n                    value = _ListWrapper(\n                        value, functools.partial(self.mark_unsaved, real_name))\n", "                value = self.parsers[real_name].parse(value)\n", ['R11.1']),
-    M('setup-list-unwrapped', F, "                if parsed == [DEFAULT_VALUE]:\n                    parsed = defaults.get(rn, [])\n                self.config[rn] = _ListWrapper(\n                    parsed, functools.partial(self.mark_unsaved, rn))", "                if parsed == [DEFAULT_VALUE]:\n                    parsed = defaults.get(rn, [])\n                self.config[rn] = parsed", ['R11.1']),
+    M('save-unwrapped', F, "                if real_name in self.list_parsers and not isinstance(value, list):\n                    value = [value]\n                if isinstance(value, list):\n                    value = _ListWrapper(\n                        value, functools.partial(self.mark_unsaved, real_name))\n", "", ['R11.1']),
+    M('setup-list-unwrapped', F, "                        parsed = [parsed]  # just one default line\n                self.config[rn] = _ListWrapper(\n                    parsed, functools.partial(self.mark_unsaved, rn))", "                        parsed = [parsed]  # just one default line\n                self.config[rn] = parsed", ['R11.1']),
     M('getattr-raw-name', F, "        self._maybe_create_listwrapper(rn)\n        v = self.config[rn]", "        self._maybe_create_listwrapper(rn)\n        v = self.config[name]", ['R11.2']),
     M('find-real-name-one-lower', F, "            if x.lower() == name.lower():", "            if x.lower() == name:", ['R11.2']),
     M('conf-changed-raw-key', F, "            self.config[real_name] = v\n\n    def bootstrap", "            self.config[k] = v\n\n    def bootstrap", ['R11.2']),
@@ -458,7 +617,7 @@ MUTANTS = [
     M('commalist-returns-str', F, "class CommaList(TorConfigType):\n    def parse(self, s):\n        return [x.strip() for x in s.split(',')]", "class CommaList(TorConfigType):\n    def parse(self, s):\n        return s", ['R11.4']),
 ]
 TWINS = [
-    M('port-default-by-membership', F, "                    try:\n                        initial = defaults[name[:-5]]\n                    except KeyError:\n", "                    if name[:-5] in defaults:\n                        initial = defaults[name[:-5]]\n                    else:\n"),
+    M('port-default-by-membership', F, "                    try:\n                        initial = defaults[name[:-5]]\n                        if not isinstance(initial, list):\n                            initial = [initial]  # just one default line\n                    except KeyError:\n", "                    if name[:-5] in defaults:\n                        initial = defaults[name[:-5]]\n                        if not isinstance(initial, list):\n                            initial = [initial]\n                    else:\n"),
     M('conf-changed-default-bound-lambda', F, "                v = _ListWrapper(\n                    v, functools.partial(self.mark_unsaved, real_name))\n            else:\n                if v == DEFAULT_VALUE:", "                v = _ListWrapper(v, lambda n=real_name: self.mark_unsaved(n))\n            else:\n                if v == DEFAULT_VALUE:"),
     M('conf-changed-not-in', F, "            if real_name in self.list_parsers:\n                # same shape as _do_setup produces: a tracked list,\n                # whether Tor reports zero, one or many values\n                if v == DEFAULT_VALUE:\n                    v = self._defaults.get(real_name, [])\n                elif real_name in self.parsers:\n                    v = self.parsers[real_name].parse(v)\n                if not isinstance(v, list):\n                    v = [v]\n                v = _ListWrapper(\n                    v, functools.partial(self.mark_unsaved, real_name))\n            else:\n                if v == DEFAULT_VALUE:\n                    v = self._defaults.get(real_name, DEFAULT_VALUE)\n                if real_name in self.parsers and v != DEFAULT_VALUE:\n                    v = self.parsers[real_name].parse(v)\n",
       "            if real_name not in self.list_parsers:\n                if v == DEFAULT_VALUE:\n                    v = self._defaults.get(real_name, DEFAULT_VALUE)\n                if real_name in self.parsers and v != DEFAULT_VALUE:\n                    v = self.parsers[real_name].parse(v)\n            else:\n                if v == DEFAULT_VALUE:\n                    v = self._defaults.get(real_name, [])\n                elif real_name in self.parsers:\n                    v = self.parsers[real_name].parse(v)\n                if not isinstance(v, list):\n                    v = [v]\n                v = _ListWrapper(\n                    v, functools.partial(self.mark_unsaved, real_name))\n"),
